@@ -87,7 +87,7 @@ def build(repo):
                           "parameter passing / register saving / return-value handling around the block are not under contract"])
     f = SourceFile(repo, "src/generate/generate_statements.rs")
     s0, ob0, cb0 = f.find_fn_span("generate_function_call")
-    blk = f.block(r"^\s*if f\.interrupt \{", r"^\s*self\.flags = FlagsState::Unknown;", s0, cb0, desc="generate_function_call(): interrupt check .. call-tree recording (R8)")
+    blk = f.block(r"^\s*if f\.interrupt\b", r"^\s*self\.flags = FlagsState::Unknown;", s0, cb0, desc="generate_function_call(): interrupt check .. call-tree recording (R8)")
     cuts = [blk]
     if "functions_call_tree" not in blk.text:
         raise Undecided("the block between the interrupt check and `self.flags = FlagsState::Unknown;` no longer contains the call-tree recording")
